@@ -649,7 +649,10 @@ def h_sym(ctx, table, n_ops):
             else:
                 key = ctx.int("id%d" % i, 0, 2 ** 40)
             if table in ("prekeys", "signed_prekeys") and op == "store" and ghost.get(key, ABSENT) is not ABSENT:
-                return []                    # inserting an existing prekey id violates the API's precondition
+                # an id that is still in the store (the id space is circular): as the last operation of a prekeys sequence the call either
+                # refuses loudly (the record stays) or the new record is what a restarted process loads; elsewhere outside the sequences
+                if not (table == "prekeys" and i == k - 1):
+                    return []
             if table == "sessions":
                 run = {"store": lambda: store.storeSession(key, 1, Rec(serialized=blob)), "delete": lambda: store.deleteSession(key, 1), "deleteAll": lambda: store.deleteAllSessions(key)}[op]
                 upd = (lambda g: g.set(key, blob)) if op == "store" else (lambda g: g.pop(key))
@@ -691,6 +694,8 @@ def h_sym(ctx, table, n_ops):
             crashed = True
         except sqlite3.OperationalError:
             crashed = True            # reported to the caller (see h_crash)
+        except sqlite3.IntegrityError:
+            post = pre.copy()         # refused and reported to the caller: nothing was claimed to be stored
         b.armed = False
         jobs = journal_obs(journal_modes(env.fake.conns if env.tmp else env.conns))
         env.die()
